@@ -87,6 +87,7 @@ type Ctx struct {
 	choices   map[string]string
 	obs       []value
 	decimals  map[string]*sym.Term
+	vfs       *virtualFS // files written through the os model on this path
 	known     map[int]bool // conditions whose truth value is fixed on this path
 	civils    []civTriple
 	mapPolicy int
@@ -162,6 +163,7 @@ func (c *Ctx) startPath(prefix []int) {
 	c.choices = nil
 	c.obs = nil
 	c.decimals = nil
+	c.vfs = nil
 	c.known = map[int]bool{}
 	c.civils = nil
 	c.mapPolicy = -1
